@@ -14,6 +14,8 @@ SRC = {
     0x8000: ".orig x8000\nstart add r0 r0 #1\nmid add r0 r0 #1\nadd r0 r0 #1\nlast halt\n",
     0xFD00: ".orig xFD00\nstart add r0 r0 #1\nmid add r0 r0 #1\nadd r0 r0 #1\nlast halt\n",
     0x0000: ".orig x0\nstart add r0 r0 #1\nmid add r0 r0 #1\nadd r0 r0 #1\nlast halt\n",
+    # an image that runs past xFE00, with preset breakpoints (`.break`) on statements OUTSIDE user space
+    0xFDFC: ".orig xFDFC\nstart add r0 r0 #1\nmid add r0 r0 #1\nadd r0 r0 #1\nlast halt\n.break\ndev add r0 r0 #1\n.break\nhalt\n",
 }
 
 
@@ -53,7 +55,7 @@ def gen(tier, seed):
                     if tier == "quick" or cmd[0] in ("goto", "move"):
                         specs.append((cmd[0] + ":" + sp[0], 0, src, [], pre + [("breakadd", ("addr", orig + 1)), cmd] + tail))
     # offsets that overflow 16 bits: extremes from PCs / labels at high addresses
-    for orig in (0x8000, 0xFD00, 0x3000, 0x0000):
+    for orig in (0x8000, 0xFD00, 0x3000, 0x0000, 0xFDFC):
         for pc in (orig, orig + 2, orig + 3):
             for off in (0x7FFF, 0x7FFE, -0x8000, -0x7FFF, 0x4000, -0x4000, 1, -1, -2, -3, -4, -5, -100, 2, 3, 0x200, -0x200):
                 for cmd in ("goto", "move", "breakadd", "breakremove", "print", "assembly"):
